@@ -92,6 +92,18 @@ def check_case(case):
     return fails
 
 
+def check_nonstring(scale, arg):
+    """A non-string is never a scale label: refused (ValueError or TypeError), never converted."""
+    from stix2.confidence import scales
+    lfn = TABLE[scale][1]
+    res, exc = core.guarded(getattr(scales, lfn), arg)
+    if exc is None:
+        return [("unknown-label-accepted:%s" % scale, "%s(%r) returned %r" % (lfn, arg, res))]
+    if not isinstance(exc, (ValueError, TypeError)):
+        return [("unknown-label-wrong-error:%s" % scale, "%s(%r) raised %s" % (lfn, arg, core.fmt_exc(exc)))]
+    return []
+
+
 def check_monotone(scale):
     """Over 0..100 the label never returns to one it has left."""
     from stix2.confidence import scales
@@ -108,10 +120,21 @@ def check_monotone(scale):
     return []
 
 
+_DIGIT_ALPHABETS = ["٠١٢٣٤٥٦٧٨٩", "０１２３４５６７８９", "०१२३४५६७८९"]   # Arabic-Indic, fullwidth, Devanagari
+
+
 def near_miss_labels(lab):
-    out = {lab.lower(), lab.upper(), " " + lab, lab + " ", lab[:-1], lab + "x", lab[1:], lab.replace(" ", "  "), lab.replace("/", " / ")}
+    out = {lab.lower(), lab.upper(), " " + lab, lab + " ", lab[:-1], lab + "x", lab[1:], lab.replace(" ", "  "), lab.replace("/", " / "),
+           "0" + lab, "00" + lab, "+" + lab, lab + ".0", lab + "\n", "\t" + lab, lab.swapcase(), lab.title(), lab.replace("-", "–"),
+           lab.replace(" ", "\u00a0")}
+    if any(ch.isdigit() for ch in lab):
+        for alpha in _DIGIT_ALPHABETS:     # other Unicode decimal digits: int()/isdigit() accept them, the scale does not
+            out.add("".join(alpha[int(ch)] if ch in "0123456789" else ch for ch in lab))
     out.discard(lab)
     return sorted(out)
+
+
+NON_STRING_ARGS = [0, 5, 10, 15, 50, 100, 5.0, None, True, False, b"5", ("5",), ["Low"]]
 
 
 def run(ctx):
@@ -138,10 +161,17 @@ def run(ctx):
             allnear.update(near_miss_labels(lab))
         allnear -= set(labels)
         extra = NO_VALUE_LABELS.get(scale, []) + ["", "None", "none", "0", "10", "11", "-1", "Certain", "High", "Medium"]
+        # every 1-3 digit numeral (zero-padded forms included) -- finite, enumerated completely
+        extra += [str(n) for n in range(0, 101)] + ["%02d" % n for n in range(0, 100)] + ["%03d" % n for n in range(0, 101)]
+        extra = list(dict.fromkeys(extra))
         for lab in labels + sorted(allnear) + [x for x in extra if x not in labels]:
             case = {"scale": scale, "dir": "l2v", "arg": lab}
             ctx.note(case, True, ["l2v:" + scale, "label" if lab in labels else "non-label"])
             ctx.handle(case, check_case(case))
+        for i, arg in enumerate(NON_STRING_ARGS):
+            case = {"scale": scale, "dir": "l2v-nonstring", "arg": i}
+            ctx.note(case, True, ["l2v-nonstring:" + scale])
+            ctx.handle(case, check_nonstring(scale, arg))
         case = {"scale": scale, "dir": "monotone", "arg": None}
         ctx.note(case, True, ["monotone:" + scale])
         ctx.handle(case, check_monotone(scale))
@@ -151,7 +181,7 @@ def run(ctx):
     # arbitrary integers / text: the refusal side beyond the enumerated window
     strat = st.one_of(
         st.builds(lambda s, v: {"scale": s, "dir": "v2l", "arg": v}, st.sampled_from(sorted(TABLE)), st.integers()),
-        st.builds(lambda s, v: {"scale": s, "dir": "l2v", "arg": v}, st.sampled_from(sorted(TABLE)), st.text(max_size=12)),
+        st.builds(lambda s, v: {"scale": s, "dir": "l2v", "arg": v}, st.sampled_from(sorted(TABLE)), st.one_of(st.text(max_size=12), st.text(st.characters(whitelist_categories=("Nd",)), min_size=1, max_size=3))),
     )
 
     def body(case):
@@ -162,6 +192,8 @@ def run(ctx):
 
 
 def replay(case):
+    if case["dir"] == "l2v-nonstring":
+        return check_nonstring(case["scale"], NON_STRING_ARGS[case["arg"]])
     if case["dir"] == "monotone":
         return check_monotone(case["scale"])
     return check_case(case)
